@@ -378,6 +378,37 @@ pub fn check_stream(bytes: &[u8], expect: Option<&Expect>, rng: &mut Rng) -> Out
     o
 }
 
+/// check_stream in a forked child with memory and CPU limits: what dies there (abort, stack
+/// overflow, runaway allocation, endless loop) is a C05 outcome, not the end of the harness.
+/// Only used to find the culprit after the in-process run was killed.
+pub fn check_stream_isolated(bytes: &[u8], seed: u64) -> Outcome {
+    let r = isolated(6 << 30, 60, || {
+        let mut rng = Rng::new(seed);
+        let o = check_stream(bytes, None, &mut rng);
+        outcome_json("x", "x", bytes, &o, false).to_string().into_bytes()
+    });
+    match r {
+        Ok(b) => {
+            let j: Value = serde_json::from_slice(&b).unwrap_or(Value::Null);
+            let mut o = Outcome::default();
+            o.lib = j["lib"].as_str().unwrap_or("").to_string();
+            o.zlib_ok = j["zlib_ok"].as_bool().unwrap_or(false);
+            o.nontrivial = j["nontrivial"].as_bool().unwrap_or(false);
+            for v in j["viol"].as_array().cloned().unwrap_or_default() {
+                let prop: &'static str = match v["prop"].as_str().unwrap_or("") { "C02" => "C02", "C03" => "C03", "C07" => "C07", _ => "C05" };
+                o.viol.push(Viol { prop, sig: v["sig"].as_str().unwrap_or("").to_string(), why: v["why"].as_str().unwrap_or("").to_string() });
+            }
+            o
+        }
+        Err(how) => {
+            let mut o = Outcome::default();
+            o.lib = "died".into();
+            o.viol.push(Viol { prop: "C05", sig: "process-died".into(), why: format!("the call did not return: the process running it was {}", how) });
+            o
+        }
+    }
+}
+
 fn outcome_json(id: &str, label: &str, bytes: &[u8], o: &Outcome, keep_bytes: bool) -> Value {
     json!({
         "kind": "case", "id": id, "label": label, "lib": o.lib, "zlib_ok": o.zlib_ok,
@@ -401,14 +432,15 @@ pub fn replay(args: &Args) -> i32 {
         let mut f = std::fs::OpenOptions::new().append(true).open(&out_path).unwrap();
         writeln!(f, "{}", json!({"kind":"timeout","id":id})).unwrap();
     }));
-    par_for(lines.len(), threads, |i, w| {
+    let isolate = args.get("isolate").is_some();
+    par_for(lines.len(), if isolate { 1 } else { threads }, |i, w| {
         let case: Value = serde_json::from_str(&lines[i]).unwrap();
         let id = format!("g{}", i);
         wd.enter(w, &id);
         let bytes = pack_fields(&case["fields"]);
         let e = expectation(&case);
         let mut rng = Rng::new(i as u64);
-        let o = check_stream(&bytes, Some(&e), &mut rng);
+        let o = if isolate { check_stream_isolated(&bytes, i as u64) } else { check_stream(&bytes, Some(&e), &mut rng) };
         wd.leave(w);
         let feat = case["feat"].clone();
         let mut j = outcome_json(&id, "generated", &bytes, &o, !o.viol.is_empty() || o.model_error.is_some());
@@ -567,11 +599,12 @@ pub fn record(args: &Args) -> i32 {
         let mut f = std::fs::OpenOptions::new().append(true).open(&out_path).unwrap();
         writeln!(f, "{}", json!({"kind":"timeout","id":id})).unwrap();
     }));
-    par_for(streams.len(), threads, |i, w| {
+    let isolate = args.get("isolate").is_some();
+    par_for(streams.len(), if isolate { 1 } else { threads }, |i, w| {
         let id = format!("d{}", i);
         wd.enter(w, &id);
         let mut r = Rng::new(seed.wrapping_mul(7919) + i as u64);
-        let o = check_stream(&streams[i].bytes, None, &mut r);
+        let o = if isolate { check_stream_isolated(&streams[i].bytes, seed.wrapping_mul(7919) + i as u64) } else { check_stream(&streams[i].bytes, None, &mut r) };
         wd.leave(w);
         let j = outcome_json(&id, &streams[i].label, &streams[i].bytes, &o, !o.viol.is_empty());
         let mut g = out.lock().unwrap();
